@@ -173,7 +173,7 @@ def check_case(ctx, case):
     import random
     import smoothmath as sm
     s = S.from_json(case["spec"])
-    if not C.varfree_in_scope(s):
+    if not C.tree_in_scope(s):
         ctx.count("inputs_out_of_scope")
         return
     rng = random.Random(case.get("pseed", 0))
